@@ -43,7 +43,7 @@ def html_docs(tier):
         for f in HD.forests(n, HD.LEAVES_SMALL + ['style'], HD.PAIRED):
             yield f
     for n in range(1, b['html_attrs'] + 1):
-        for f in HD.forests(n, ['br', 'x/', 'comment', 'text'], HD.PAIRED[:2]):
+        for f in HD.forests(n, ['br', 'x/', 'y /', 'comment', 'text'], HD.PAIRED[:2]):
             for path in HD.element_paths(f):
                 for aset in ATTRS:
                     yield HD.with_attrs(f, path, aset)
